@@ -289,13 +289,13 @@ def applyUnique {α} (npUnique : List α → Bool → Bool → Bool → UniqueRe
 
 /-- reference semantics of `np.isin` on a 1-d array and a list with `None` entries: `None` equals no stored value;
     `np.isin(data, None)` compares with the 0-d object array `None` -/
-def refNpIsin {α} [DecidableEq α] (data : List α) (tests : Option (List (Option α))) : Except Err (List Bool) :=
+def refNpIsin {α} [BEq α] (data : List α) (tests : Option (List (Option α))) : Except Err (List Bool) :=
   match tests with
   | none => .ok (data.map (fun _ => false))
   | some ts => .ok (Spec.isin data (ts.filterMap id))
 
 /-- reference semantics of `np.unique` with the three flags -/
-def refNpUnique {α} [DecidableEq α] (le : α → α → Bool) (data : List α) (ri rv rc : Bool) : UniqueResult α :=
+def refNpUnique {α} [BEq α] (le : α → α → Bool) (data : List α) (ri rv rc : Bool) : UniqueResult α :=
   ⟨Spec.uniques le data,
    if ri then some (Spec.uniqueIndex le data) else none,
    if rv then some (Spec.uniqueInverse le data) else none,
